@@ -15,10 +15,12 @@ C = {
  "C06": ("model_checking", "Groups of overlapping calls under seeded random/PCT schedules owned by the deterministic executor; TLC searches placements of per-block linearization points (silent LinOther steps) that explain every Ret; final sweeps, flush and reopen sweeps must equal the linearized FlatDisk.", "7 C06"),
  "C07": ("model_checking", "Groups of 2-5 overlapping calls with 2-slice caches under seeded random/PCT schedules; the deterministic executor detects deadlock (unfinished tasks, nothing runnable, nothing in flight) and livelock (step budget), panics are caught as events; Inv_C07a (no Stuck/Panic) and Inv_C07b (Err only for invalid arguments or a backend fault) on every recorded execution.", "7 C07"),
  "C08": ("model_checking", "Hook H1 samples the in-ram metadata view after every scheduler step; TLC evaluates Inv_C08 on it (no host cluster referenced twice, refcount >= references, hook-allocated clusters owned by nobody else); allocation histories driven through hook H3 incl. concurrent allocators: Inv_C08alloc (aligned contiguous run <= requested of clusters that were free, given to one requester); write/discard cycles with a bound on the host file length.", "7 C08"),
+ "C09": ("model_checking", "Independently built images over cluster_bits 9-21 x refcount_order 0-6 x v2/v3 (zero, preallocated zero, compressed incl. straddling, short L1, backing chains) opened with default and custom parameters: Inv_C09map (get_mapping of every guest cluster = the spec's L2 reading), sweeps = FlatDisk, Inv_C09info (derived geometry = spec/Geometry.tla); library-formatted images over (size, cluster_bits, refcount_order, block size): Inv_C09fmt (WellFormed and Exact) and usable.", "7 C09"),
  "C10": ("model_checking", "Partial/straddling writes over backing-provided and compressed clusters of independently built chains; FlatDisk initial content = builder ground truth of the chain, so the COW merge is checked by Inv_C01/C02; Inv_C10 forbids any non-read request on read-only devices; exact release of compressed clusters is Inv_C03 after flush.", "7 C10"),
  "C11": ("model_checking", "discard over (offset, len) classes x cluster states x with/without backing; the FlatDisk model applies the C11 contract by cluster kind; sweeps after every discard, Inv_C03 after flush (space released), reopen sweep.", "7 C11"),
  "C12": ("model_checking", "Histories crossing refblock capacity (64-bit refcounts x 512-byte clusters), images with fewer L1 entries than needed, allocations across refblock-slice boundaries; C01-C05 invariants incl. crash branching on those executions.", "7 C12"),
  "C13": ("model_checking", "spec/GenArgs.tla enumerates op x offset class x length class exhaustively; classes are instantiated with concrete u64 values per geometry and device mode; Validate.tla decides the admissible outcome; Inv_C13 forbids modifying requests during rejected calls; sweeps check content is unchanged; panics are violations.", "7 C13"),
+ "C14": ("model_checking", "spec/HeaderAccept.tla enumerates structured malformations (field x class: all singles, pairs in the thorough tier) and decides which must be refused; each is applied to an independently built valid image and run in its own process (address-space limit, alarm): Inv_C14open (no panic; unsupported features refused), Inv_C14run (no panic/hang in any later operation), process death and heap use out of proportion are violations.", "7 C14"),
  "C16": ("model_checking", "Inv_C16 on every backend request event of every recorded execution (offset, length and buffer address modulo block size).", "7 C16"),
  "C17": ("fault_enumeration", "For each history one run per backend request index (read/write/punch/fsync, every third a partial write), one with all requests failing, one with hole punching unsupported; then recovery by repeated flush_meta, sweep, reopen, sweep. TLC: failed calls may or may not have taken effect (set-valued FlatDisk), Inv_C07a/b, Inv_C17 (after recovery Safe and every acknowledged write readable).", "7 C17"),
  "C18": ("model_checking", "need_flush_meta() sampled by the executor after every scheduler step; Inv_C18 at every quiescent point with the flag clear (file content = FlatDisk, image safe) on schedules overlapping writers/discarders with flush_meta/shrink_caches; violations count only on accepting (consistently linearized) paths.", "7 C18"),
